@@ -16,7 +16,7 @@ import (
 func init() {
 	register(&explore.Prop{
 		ID: "C17", Level: levelMC, Explorer: "E1/E2 over TREE (metamorphic, no reference model)",
-		Rule: "every list of 3 segments over K kinds (<=2 docs each) and of 4 segments (<=1 doc each) x every deletion set per segment x every order-preserving hierarchical grouping (Schroeder trees: 3 for k=3, 11 for k=4) x {deletions applied at the innermost merge containing the segment, deletions translated through DocumentNumbers() and applied at the outermost merge}; all results must be observationally identical to the flat merge including statistics; single-segment identity merge([s]) == s for built and already-merged s (statistics compared where the built and merged definitions coincide); " +
+		Rule: "every list of 3 segments over K kinds (<=2 docs each) and of 4 segments (<=1 doc each), and TREE-TERM: every list of 3 one-document segments whose posting for one (field, term) is absent / f1 / f1+loc / f2+loc / f300+2 locs, x every deletion set per segment x every order-preserving hierarchical grouping (Schroeder trees: 3 for k=3, 11 for k=4) x {deletions applied at the innermost merge containing the segment, deletions translated through DocumentNumbers() and applied at the outermost merge}; all results must be observationally identical to the flat merge including statistics; single-segment identity merge([s]) == s for built and already-merged s (statistics compared where the built and merged definitions coincide); " +
 			"distinct = (segment list, deletions); evaluations = merge trees evaluated; non-trivial = some term has freq>=2 or occurs in >=2 segments or a document is dropped",
 		Assumptions: []string{"bounded scopes (DESIGN.md 4/9)", "no reference model involved: the oracle is agreement between differently bracketed executions of the real merger", "roaring, vellum, zstd trusted"},
 		Budget:      qBudget, Run: runC17,
@@ -142,11 +142,18 @@ func evalTree(t *tree, leaves []segment.Segment, counts []int, drops [][]uint32,
 	return out, nil
 }
 
-func c17Opts(K, maxDocs int) []gen.SegSpec {
+func c17Opts(K, maxDocs, base int) []gen.SegSpec {
 	var out []gen.SegSpec
 	for _, o := range gen.SegOptions(K, maxDocs) {
 		if o.DropForm == 1 && len(o.Drops) == 0 {
 			continue
+		}
+		if base > 0 {
+			ks := make([]int, len(o.Kinds))
+			for i, k := range o.Kinds {
+				ks[i] = k + base
+			}
+			o.Kinds = ks
 		}
 		out = append(out, o)
 	}
@@ -157,15 +164,22 @@ func runC17(c *explore.Ctx) {
 	type sweep struct {
 		k, K, maxDocs int
 		mode          uint32
+		base          int // 0: the MIX merge kinds; gen.TermKindBase: the five TERM payload kinds
 	}
-	sweeps := []sweep{{3, 3, 2, 2}, {3, 4, 1, 1025}, {4, 3, 1, 1025}} // chunk size 2: merged lists are multi-chunk
+	// chunk size 2: merged lists are multi-chunk. The last sweep: three segments of one document whose
+	// posting for ONE (field, term) is absent / f1 / f1+loc / f2+loc / f300+2 locs (inner merges turn a
+	// lone f1 posting into a 1-hit entry that then meets postings with locations)
+	sweeps := []sweep{{3, 3, 2, 2, 0}, {3, 4, 1, 1025, 0}, {4, 3, 1, 1025, 0}, {3, 5, 1, 1025, gen.TermKindBase}}
 	if c.Thorough() {
-		sweeps = []sweep{{3, 5, 2, 2}, {3, 3, 2, 1025}, {3, 3, 2, 1}, {4, 4, 1, 1025}, {4, 3, 1, 2}}
+		sweeps = []sweep{{3, 5, 2, 2, 0}, {3, 3, 2, 1025, 0}, {3, 3, 2, 1, 0}, {4, 4, 1, 1025, 0}, {4, 3, 1, 2, 0}, {3, 5, 2, 1025, gen.TermKindBase}, {4, 5, 1, 2, gen.TermKindBase}}
 	}
 	for _, sw := range sweeps {
-		opts := c17Opts(sw.K, sw.maxDocs)
+		opts := c17Opts(sw.K, sw.maxDocs, sw.base)
 		ts := trees(0, sw.k)
 		scope := fmt.Sprintf("TREE(k=%d,K=%d,d=%d)/%d", sw.k, sw.K, sw.maxDocs, sw.mode)
+		if sw.base > 0 {
+			scope = fmt.Sprintf("TREE-TERM(k=%d,d=%d)/%d", sw.k, sw.maxDocs, sw.mode)
+		}
 		var idx int64
 		gen.Pow(len(opts), sw.k, func(v []int) bool {
 			my := idx
